@@ -225,8 +225,22 @@ pub fn expand_source(src: &str, cmdline: &[String]) -> String {
         ex.define(n, None, v);
     }
     let mut out = String::new();
+    let mut skipping = false;
     for line in src.lines() {
         let t = line.trim();
+        // the one conditional form the generator writes: a group that is never selected
+        if t.starts_with("#ifdef NEVER_") {
+            skipping = true;
+            out.push('\n');
+            continue;
+        }
+        if skipping {
+            if t == "#endif" {
+                skipping = false;
+            }
+            out.push('\n');
+            continue;
+        }
         if let Some(rest) = t.strip_prefix("#define ") {
             let rest = rest.trim_start();
             let name: String = rest.chars().take_while(|c| c.is_ascii_alphanumeric() || *c == '_').collect();
@@ -298,6 +312,23 @@ pub fn gen_case(idx: u64, large: bool) -> Case {
         cmdline.push("DE=(g1==1)".into());
         macros.push(MacroDef { name: "DE".into(), params: None, body: "(g1==1)".into(), arity: 0, is_value: true });
         desc.push("-D NAME=VALUE with '=' inside the value".into());
+    }
+    if rng.chance(1, 4) {
+        // the value contains the name, but only inside a longer identifier
+        lines.push("unsigned char DB_x;".into());
+        cmdline.push("DB=DB_x".into());
+        macros.push(MacroDef { name: "DB".into(), params: None, body: "DB_x".into(), arity: 0, is_value: true });
+        desc.push("-D NAME=NAME_longer".into());
+    }
+    if rng.chance(1, 4) {
+        // a character constant as the very last token of a body, naming a one-letter macro / a parameter
+        lines.push("#define q 4".into());
+        lines.push("#define KEYQ 'q'".into());
+        lines.push("#define ISC(c) c == 'c'".into());
+        macros.push(MacroDef { name: "q".into(), params: None, body: "4".into(), arity: 0, is_value: true });
+        macros.push(MacroDef { name: "KEYQ".into(), params: None, body: "'q'".into(), arity: 0, is_value: true });
+        macros.push(MacroDef { name: "ISC".into(), params: Some(vec!["c".into()]), body: "c == 'c'".into(), arity: 1, is_value: true });
+        desc.push("character constant at the end of a body".into());
     }
     if rng.chance(1, 4) {
         cmdline.push("DONE".into());
@@ -383,6 +414,14 @@ pub fn gen_case(idx: u64, large: bool) -> Case {
             Some(p) => format!("#define {}({}) {}", def.name, p.join(","), def.body),
         };
         lines.push(head);
+        if !large && def.params.is_none() && def.is_value && rng.chance(1, 6) {
+            // directives in a group that is not selected must leave the macro alone
+            desc.push("#undef / #define of the macro inside an unselected group".into());
+            lines.push(format!("#ifdef NEVER_{}", k));
+            lines.push(format!("#undef {}", def.name));
+            lines.push(format!("#define {} 111", def.name));
+            lines.push("#endif".into());
+        }
         macros.push(def);
         // occasional #undef of an earlier macro that no body depends on (at the roll-over indices for sure)
         let rollover = large && [98usize, 99, 100, 101, 198, 199, 200, 201].contains(&k);
